@@ -15,6 +15,7 @@ import (
 	codectypes "github.com/cosmos/cosmos-sdk/codec/types"
 	sdk "github.com/cosmos/cosmos-sdk/types"
 	"github.com/ethereum/go-ethereum/common"
+	"github.com/ethereum/go-ethereum/core/vm"
 
 	fxtypes "github.com/functionx/fx-core/v8/types"
 	"github.com/functionx/fx-core/v8/x/crosschain/precompile"
@@ -101,6 +102,8 @@ type hist struct {
 	opsOnly []string // coq operations only (prefix of a transaction case)
 	mon   *monitor
 	cfg   string
+
+	reInstalled map[uint64]bool
 
 	// generator bookkeeping (what the generator believes; never used by the monitor)
 	unbondCount map[int]int
@@ -190,6 +193,13 @@ func (h *hist) mkClaim(o Op, bridger string) crosschaintypes.ExternalClaim {
 			EventNonce: o.Nonce, BlockHeight: 1000 + o.Nonce, OracleSetNonce: 0, Members: ms,
 			BridgerAddress: bridger, ChainName: h.module,
 		}
+	case "callre":
+		return &crosschaintypes.MsgBridgeCallClaim{
+			ChainName: h.module, BridgerAddress: bridger, EventNonce: o.Nonce, BlockHeight: 1000 + o.Nonce,
+			Sender: h.extAddr(1), Refund: h.extAddr(2), TxOrigin: h.extAddr(1),
+			To:    crosschaintypes.ExternalAddrToStr(h.module, h.reContract(o.Nonce).Bytes()),
+			Value: sdkmath.ZeroInt(), Data: "", Memo: fmt.Sprintf("%02x", o.Variant),
+		}
 	case "call":
 		return &crosschaintypes.MsgBridgeCallClaim{
 			ChainName: h.module, BridgerAddress: bridger, EventNonce: o.Nonce, BlockHeight: 1000 + o.Nonce,
@@ -210,7 +220,49 @@ func (h *hist) mkClaim(o Op, bridger string) crosschaintypes.ExternalClaim {
 	}
 }
 
-func parks(ckind string) bool { return ckind == "fx" || ckind == "call" }
+func parks(ckind string) bool { return ckind == "fx" || ckind == "call" || ckind == "callre" }
+
+// ---- re-entrant callback contract -------------------------------------------------------------
+// Runtime code (hand assembled, no solc in the sandbox):
+//     if (address(this).balance == 0) return;
+//     sink.call{value: 1}("");                       // one wei per run: the sink's balance counts the runs
+//     crosschainPrecompile.call(executeClaim(chain, nonce));   // result ignored
+// The contract is funded with 3 wei, which bounds the recursion should a nested execution ever succeed.
+func (h *hist) reContract(nonce uint64) common.Address {
+	return lib.EthKey(h.seed, "recontract/"+h.module, int(nonce)).Hex()
+}
+func (h *hist) reSink(nonce uint64) common.Address {
+	return lib.EthKey(h.seed, "resink/"+h.module, int(nonce)).Hex()
+}
+
+func (h *hist) installReentrant(nonce uint64) {
+	if h.reInstalled == nil {
+		h.reInstalled = map[uint64]bool{}
+	}
+	if h.reInstalled[nonce] {
+		return
+	}
+	input, err := precompile.NewExecuteClaimMethod(nil).PackInput(crosschaintypes.ExecuteClaimArgs{Chain: h.module, EventNonce: new(big.Int).SetUint64(nonce)})
+	lib.Must(err)
+	a := &lib.Asm{}
+	a.Op(vm.SELFBALANCE)
+	dest := len(a.B) + 3 + 1 + 1
+	a.B = append(a.B, byte(vm.PUSH2), byte(dest>>8), byte(dest))
+	a.Op(vm.JUMPI, vm.STOP, vm.JUMPDEST)
+	a.PushU(0).PushU(0).PushU(0).PushU(0).PushU(1).PushAddr(h.reSink(nonce)).Op(vm.GAS, vm.CALL, vm.POP)
+	a.Call(lib.CALL, crosschaintypes.GetAddress(), 0, nil, input).Ignore().Stop()
+	h.c.InstallCode(h.c.Ctx, h.reContract(nonce), a.B)
+	h.c.Mint(h.reContract(nonce).Bytes(), sdk.NewCoin(fxtypes.DefaultDenom, sdkmath.NewInt(3)))
+	h.reInstalled[nonce] = true
+}
+
+// handlerRuns: how many times the callback of nonce's bridge call ran (wei received by its sink).
+func (h *hist) handlerRuns(nonce uint64) int64 {
+	if !h.reInstalled[nonce] {
+		return -1
+	}
+	return h.c.App.BankKeeper.GetBalance(h.c.Ctx, h.reSink(nonce).Bytes(), fxtypes.DefaultDenom).Amount.Int64()
+}
 
 func (h *hist) classID(nonce uint64, hash []byte) int64 {
 	k := fmt.Sprintf("%d/%x", nonce, hash)
@@ -350,6 +402,11 @@ func (h *hist) apply(o Op) (accepted bool, errStr string) {
 			return e
 		})
 		coqOps = append(coqOps, fmt.Sprintf("EditBridger %d %d", o.Oracle, o.Bridger))
+	case "install":
+		// a callback contract for the bridge call of event nonce o.Nonce that re-enters executeClaim(chain, nonce)
+		// (no model operation: nothing the model covers changes)
+		h.installReentrant(o.Nonce)
+		return true, ""
 	case "window":
 		// module parameter change through the authority-guarded handler; no model operation
 		p := h.x.Keeper.GetParams(h.c.Ctx)
@@ -578,4 +635,3 @@ func (h *hist) finish() {
 
 func (h *hist) replay() Replay { return Replay{ChainSeed: h.seed, Module: h.module, Ops: append([]Op{}, h.ops...)} }
 
-var _ = common.Address{}
